@@ -375,8 +375,8 @@ def _matcher(agent_kind, ua_i, r1n, r1a, r1b, r2on, r2n, r2a, r2b, cn, ca, cb, s
         cand = cand + '?x=1'
     if qmode == 2:
         rule1 = rule1 + 'x?x' if not rule1.endswith('x') else rule1 + '?x'
-    group_agent = pick(['*', 'wpull', 'otherbot'], agent_kind)
-    ua = pick(['Wpull/2.0', 'Mozilla/5.0 (compatible; wpull)', 'curl/7', ''], ua_i)
+    group_agent = pick(['*', 'wpull', 'otherbot', 'Wpull', 'WPULL', 'ArchiveBot'], agent_kind)      # names as site owners spell them
+    ua = pick(['Wpull/2.0', 'Mozilla/5.0 (compatible; wpull)', 'curl/7', '', 'ArchiveBot/1.0 (wpull 2.0.3)'], ua_i)
     text = 'User-agent: %s\nDisallow: %s\n' % (group_agent, rule1)
     if rule2 is not None:
         text += 'Disallow: %s\n' % rule2
@@ -527,13 +527,13 @@ HARNESSES = [
           'obtained before its first URL'),
     H('matcher', '_matcher',
       'agent_kind: int, ua_i: int, r1n: int, r1a: int, r1b: int, r2on: bool, r2n: int, r2a: int, r2b: int, cn: int, ca: int, cb: int, second_group: bool, qmode: int',
-      pre=['0 <= agent_kind <= 2 and 0 <= ua_i <= 3 and 0 <= r1n <= 2 and 0 <= r2n <= 2 and 0 <= cn <= 2 and 0 <= qmode <= 2',
+      pre=['0 <= agent_kind <= 5 and 0 <= ua_i <= 4 and 0 <= r1n <= 2 and 0 <= r2n <= 2 and 0 <= cn <= 2 and 0 <= qmode <= 2',
            ' and '.join('0 <= %s <= 2' % v for v in ('r1a', 'r1b', 'r2a', 'r2b', 'ca', 'cb'))],
       parts={'quick': [{'tag': 'one_rule', 'fix': _fx(r2on=False, r2n=0, r2a=0, r2b=0, second_group=False, ua_i=0, qmode=0), 'pre': ['agent_kind <= 1']},
                        {'tag': 'query', 'fix': _fx(r2on=False, r2n=0, r2a=0, r2b=0, second_group=False, ua_i=0, agent_kind=0, r1b=0, cb=0), 'pre': ['qmode >= 1']},
                        {'tag': 'agents', 'fix': _fx(r1n=1, r1a=1, r1b=0, r2on=False, r2n=0, r2a=0, r2b=0, cn=2, cb=0, qmode=0)},
                        {'tag': 'two_rules', 'fix': _fx(agent_kind=0, ua_i=0, second_group=False, r2on=True, r1n=2, r1b=1, r2b=2, ca=1, qmode=1), 'pre': ['r2n >= 1']}],
-             'thorough': [{'tag': 'k%d_u%d' % (k, u), 'fix': _fx(agent_kind=k, ua_i=u)} for k in range(3) for u in range(4)]},
+             'thorough': [{'tag': 'k%d_u%d' % (k, u), 'fix': _fx(agent_kind=k, ua_i=u)} for k in range(6) for u in range(5)]},
       timeout={'quick': 250, 'thorough': 2400}, samples=[(0, 0, 1, 1, 0, False, 0, 0, 0, 2, 1, 0, False, 0), (1, 2, 0, 0, 0, True, 2, 2, 1, 1, 0, 0, True, 1), (0, 0, 1, 1, 0, False, 0, 0, 0, 1, 1, 0, False, 2)],
       need=['allowed', 'disallowed', 'query-rule'],
       funcs=['wpull/robotstxt.py:RobotsTxtPool.load_robots_txt', 'wpull/robotstxt.py:RobotsTxtPool.can_fetch',
